@@ -1,10 +1,15 @@
 package faults
 
 import (
+	"bytes"
+	"context"
 	"fmt"
 	"strings"
 	"testing"
+	"testing/synctest"
 	"time"
+
+	"github.com/godaddy/asherah/go/appencryption"
 
 	"verif/harness/awsx"
 	"verif/harness/ev"
@@ -44,6 +49,88 @@ func sessionCacheLedger(t *testing.T, r *ev.Run) {
 			}); p != nil {
 				r.Violation("panic:session-cache-programs", fmt.Sprint(p), nil)
 			}
+		}
+	}
+}
+
+// capacityScenarios: with evicting key caches the number of live secrets at quiescent moments never exceeds what the
+// open caches are entitled to hold (their configured capacities), whatever is rotated, revoked or read back.
+func capacityScenarios(t *testing.T, r *ev.Run) {
+	type shape struct {
+		name          string
+		skPol         string
+		skCap         int
+		ikPol         string
+		ikCap         int
+		shared        bool
+		openSessions  int
+	}
+	shapes := []shape{
+		{"sk-lru-1/ik-shared-lru-2", "lru", 1, "lru", 2, true, 3},
+		{"sk-slru-2/ik-shared-lfu-1", "slru", 2, "lfu", 1, true, 3},
+		{"sk-lfu-1/ik-per-session-lru-1", "lfu", 1, "lru", 1, false, 2},
+		{"sk-tinylfu-1/ik-shared-tinylfu-2", "tinylfu", 1, "tinylfu", 2, true, 3},
+		{"sk-lru-1/ik-shared-lru-10", "lru", 1, "lru", 10, true, 3},
+	}
+	for _, sh := range shapes {
+		sh := sh
+		journal("C09 capacity " + sh.name)
+		if p := inBubble(t, func() {
+			w := world.New("memguard")
+			defer w.Close()
+			time.Sleep(11 * time.Second)
+			c := world.Default(tE, tR, tP)
+			c.SKPolicy, c.SKCap, c.IKPolicy, c.IKCap, c.SharedIK = sh.skPol, sh.skCap, sh.ikPol, sh.ikCap, sh.shared
+			f := w.Factory(c, "svc", "prod")
+			ctx := context.Background()
+			parts := []string{"P0", "P1", "P2"}[:sh.openSessions]
+			sess := map[string]*appencryption.Session{}
+			for _, p := range parts {
+				sess[p], _ = f.GetSession(p)
+			}
+			bound := sh.skCap + sh.ikCap
+			if !sh.shared {
+				bound = sh.skCap + sh.ikCap*len(parts)
+			}
+			var recs []prior
+			check := func(when string) {
+				synctest.Wait()
+				live := w.Led.Live()
+				r.Count("capacity_checks", 1)
+				if len(live) > bound {
+					r.Violation("live-secrets-exceed-cache-capacities", fmt.Sprintf("shape %s, %s: %d secrets are live at a quiescent moment, the open caches may hold at most %d (SK cache %s/%d, IK cache %s/%d shared=%v, %d sessions)",
+						sh.name, when, len(live), bound, sh.skPol, sh.skCap, sh.ikPol, sh.ikCap, sh.shared, len(parts)), map[string]any{"shape": sh.name, "when": when})
+				}
+			}
+			for gen := 0; gen < 4; gen++ {
+				for _, p := range parts {
+					pl := []byte(fmt.Sprintf("gen%d-%s", gen, p))
+					d, err := sess[p].Encrypt(ctx, pl)
+					if err != nil {
+						r.Violation("capacity-scenario-op-failed", fmt.Sprintf("shape %s: encrypt failed: %v", sh.name, err), nil)
+						return
+					}
+					recs = append(recs, prior{p, pl, d})
+					check(fmt.Sprintf("after encrypt gen %d %s", gen, p))
+				}
+				// read records of every earlier generation back: old SKs and IKs are loaded again
+				for _, rc := range recs {
+					if out, err := sess[rc.part].Decrypt(ctx, *world.CopyDRR(rc.drr)); err != nil || !bytes.Equal(out, rc.payload) {
+						r.Violation("capacity-scenario-op-failed", fmt.Sprintf("shape %s: decrypt of an old record failed: %v", sh.name, err), nil)
+						return
+					}
+					check("after decrypt of an older record")
+				}
+				time.Sleep(tE + 2*tP) // next generation
+			}
+			for _, s := range sess {
+				s.Close()
+			}
+			f.Close()
+			r.Eval(1)
+			r.Distinct("capacity|" + sh.name)
+		}); p != nil {
+			r.Violation("panic:capacity-scenario", fmt.Sprint(p), nil)
 		}
 	}
 }
